@@ -566,13 +566,25 @@ static bool parse_comment(TokenContext &ctx, Chunk &pc)
             break;
          }
 
+         // the comment text holds a plain '\n' for the break, whatever the file uses
          if (ctx.peek() == '\r')
          {
-            pc.Str().append(ctx.get());
-         }
+            ctx.get();
 
-         if (ctx.peek() == '\n')
+            if (ctx.peek() == '\n')
+            {
+               ++LE_COUNT(CRLF);
+               ctx.get();
+            }
+            else
+            {
+               ++LE_COUNT(CR);
+            }
+            pc.Str().append('\n');
+         }
+         else if (ctx.peek() == '\n')
          {
+            ++LE_COUNT(LF);
             pc.Str().append(ctx.get());
          }
          pc.SetNlCount(pc.GetNlCount() + 1);
@@ -1907,7 +1919,18 @@ static bool parse_bs_newline(TokenContext &ctx, Chunk &pc)
       {
          if (ch == '\r')
          {
-            ctx.expect('\n');
+            if (ctx.expect('\n'))
+            {
+               ++LE_COUNT(CRLF);
+            }
+            else
+            {
+               ++LE_COUNT(CR);
+            }
+         }
+         else
+         {
+            ++LE_COUNT(LF);
          }
          pc.SetType(CT_NL_CONT);
          pc.Str() = "\\";
